@@ -3,7 +3,7 @@ Written from the property text: duplicate names rejected, span only widens, fail
 from collections import OrderedDict
 
 from praatio.utilities import errors
-from spec.tiers import valid, disjoint_ordered, in_span_i, in_span_p
+from spec.tiers import valid, disjoint_ordered, in_span_i, in_span_p, well_formed
 from spec.prims import forall, exists, pairwise, adjacent, strip, is_sorted
 
 REPORTING_MODES = ("silence", "warning", "error")
@@ -204,3 +204,15 @@ def Textgrid_validate(self, reportingMode):
         if not t.validate(reportingMode):
             ok = False
     return ok
+
+
+# ---- C10 / C12: mergeTiers() with the default arguments fuses all interval tiers into one and all point tiers into
+# one (interval tier first), each named after the first tier of its class
+
+
+def merged_names(tg, tierNames, preserveOtherTiers):
+    sel = tg.tierNames if tierNames is None else tierNames
+    ints = [n for n in sel if tg._tierDict[n].tierType == "IntervalTier"]
+    pts = [n for n in sel if tg._tierDict[n].tierType == "TextTier"]
+    others = [n for n in tg.tierNames if n not in sel] if preserveOtherTiers else []
+    return tuple(others + ints[:1] + pts[:1])
